@@ -89,7 +89,8 @@ prop("C02", NEC + "Clauses: token-range to text-range conversions unwrap first()
       {"rule": "ENTRY-GUARD", "floor": 6}, {"rule": "WHO-MAY", "filter": tag("exit"), "floor": 1},
       {"rule": "TOKEN-RANGE-SOURCE", "floor": 11}, {"rule": "INDEX-ELEM", "floor": 30},
       {"rule": "BUILTIN-SET", "floor": 3}, {"rule": "TEXT-SYNC", "filter": tag("batch", "clamp"), "floor": 6},
-      {"rule": "RECURSION-BOUND", "floor": 4}, {"rule": "CODEC", "floor": 8}, {"rule": "BROKER", "filter": tag("answer"), "floor": 1}])
+      {"rule": "RECURSION-BOUND", "floor": 4}, {"rule": "CODEC", "floor": 8}, {"rule": "BROKER", "filter": tag("answer"), "floor": 1},
+      {"rule": "ERR-FRAME", "filter": tag("entry"), "floor": 3}])
 
 prop("C03", NEC + "Clauses: each of the 27 build/semantic message kinds has an emitting site under table::* and its own "
      "text (VARIANTS); every error is attached in the reference frame of the node that owns it and is shifted exactly "
@@ -103,7 +104,9 @@ prop("C03", NEC + "Clauses: each of the 27 build/semantic message kinds has an e
       {"rule": "FRAME", "filter": files(*FRONT_FRAME), "floor": 212},
       {"rule": "TRAVERSE", "filter": tag("errors", "analyze", "build"), "floor": 73}, {"rule": "EQ-COMPLETE", "floor": 43},
       {"rule": "SCOPE-ORDER", "filter": tag("typescope", "semantic"), "floor": 5}, {"rule": "NOT-A-KIND", "floor": 3},
-      {"rule": "KEYWORD-BOUNDARY", "filter": nottag("charvalue"), "floor": 3}, {"rule": "EMPTY-RANGE-GUARD", "filter": tag("diagstart"), "floor": 1}])
+      {"rule": "KEYWORD-BOUNDARY", "filter": nottag("charvalue"), "floor": 3}, {"rule": "EMPTY-RANGE-GUARD", "filter": tag("diagstart"), "floor": 1},
+      {"rule": "ERR-FRAME", "filter": tag("frame"), "floor": 4},
+      {"rule": "NOCONSUME", "filter": tag("tag"), "floor": 34}])
 
 prop("C04", NEC + "Clauses: shape of the precedence-climbing parser (levels, loops, operand parsers, else binding) "
      "and agreement of parser levels with the operator classification used by the type checker (T5); raw token "
@@ -114,12 +117,14 @@ prop("C04", NEC + "Clauses: shape of the precedence-climbing parser (levels, loo
      [{"rule": "PARSE-SHAPE", "floor": 18}, {"rule": "TABLES", "filter": tag("T5"), "floor": 23},
       {"rule": "NOCONSUME", "filter": tag("take"), "floor": 4}, {"rule": "DOC-IN-RANGE", "floor": 5},
       {"rule": "FRAME", "filter": files("parser.rs", "utility.rs"), "floor": 3}, {"rule": "INFO-EXTENT", "floor": 1},
-      {"rule": "SYNC-SETS", "floor": 14}])
+      {"rule": "SYNC-SETS", "floor": 14},
+      {"rule": "ERR-FRAME", "filter": tag("frame"), "floor": 4}])
 
 prop("C05", NEC + "Clauses: the five synchronisation sets are nested and all contain proc/type/eof, each error "
      "variant recovers with its own set (SYNC-SETS); failed token parsers and expect() hand back the original "
      "input, and so do the five recovery parsers when they find nothing to ignore; declaration keywords are consumed only at declaration level (NOCONSUME).",
-     [{"rule": "SYNC-SETS", "floor": 14}, {"rule": "NOCONSUME", "filter": tag("tag", "expect", "kw", "recover"), "floor": 45}])
+     [{"rule": "SYNC-SETS", "floor": 14}, {"rule": "NOCONSUME", "filter": tag("tag", "expect", "kw", "recover"), "floor": 45},
+      {"rule": "ERR-FRAME", "filter": tag("frame"), "floor": 4}])
 
 prop("C06", NEC + "Clauses: alt(..) order vs. prefix relation of static lexemes (longest match), every static token "
      "lexed exactly once through the macro of its class, class order, exactly one Eof; token ranges are the ranges of the "
@@ -168,14 +173,15 @@ prop("C10", NEC + "Clause: a composite node whose parser skips comments in front
      "comments of its slice (COMMENT-PAIRING). Six composite Format impls violate it on the pinned tree (known findings). A comment must first of all be a comment token: "
      "COMMENT-LEX; handlers do not mistake the comment in front of a node for the node's first token (SLICE-FIRST).",
      [{"rule": "COMMENT-PAIRING", "floor": 21}, {"rule": "DOC-IN-RANGE", "floor": 5}, {"rule": "SLICE-FIRST", "floor": 20},
-      {"rule": "COMMENT-LEX", "floor": 5}])
+      {"rule": "COMMENT-LEX", "floor": 5},
+      {"rule": "LEN-UNITS", "filter": tag("arith"), "floor": 1}, {"rule": "TABLES", "filter": tag("T2"), "floor": 18}])
 
 prop("C11", NEC + "Clauses: the printer does not read byte positions (output is a function of tree and token kinds), the "
      "indentation unit follows insertSpaces/tabSize, null is returned exactly on equality; character literals are printed only with "
      "escapes the lexer reads back (CHAR-ESCAPES: otherwise the formatted text re-lexes differently and a second run changes it again); the "
      "all-comments helper is applied only to text whose parts print no comments themselves (COMMENT-PAIRING nested: otherwise every run adds "
      "another copy of the inner comments in front of the node).",
-     [{"rule": "FMT-PURE", "floor": 5}, {"rule": "CHAR-ESCAPES", "floor": 2}, {"rule": "COMMENT-PAIRING", "filter": tag("nested"), "floor": 5}])
+     [{"rule": "FMT-PURE", "floor": 5}, {"rule": "CHAR-ESCAPES", "floor": 2}, {"rule": "COMMENT-PAIRING", "filter": tag("nested", "order"), "floor": 5}])
 
 prop("C12", NEC + "Clauses: an entry's name range is resolved against the token slice cut with that same entry's range "
      "(FRAME S7 in goto.rs / features.rs); inside a procedure the identifier is resolved local-then-global through a "
@@ -188,7 +194,8 @@ prop("C12", NEC + "Clauses: an entry's name range is resolved against the token 
        {"rule": "IDENT-RANGE", "filter": both(tag("identexact"), feat("goto")), "floor": 1},
       {"rule": "CURSOR-CMP", "filter": feat("goto"), "floor": 0},
       {"rule": "FRAME", "filter": files("parser.rs", "utility.rs"), "floor": 3},
-      {"rule": "TEXT-SYNC", "filter": tag("utf16"), "floor": 1}])
+      {"rule": "TEXT-SYNC", "filter": tag("utf16"), "floor": 1},
+      {"rule": "ERR-FRAME", "filter": tag("entry"), "floor": 3}])
 
 prop("C13", NEC + "Clauses: the finder walkers descend into every statement/expression/type shape that can contain what "
      "they collect (TRAVERSE); every identifier found is shifted once per Reference crossed (FRAME in references.rs); "
@@ -257,7 +264,8 @@ prop("C18", NEC + "Clauses: every path through every Request arm of the three ph
      "document query on every path, so that `document not open` is an answer (null) and not an error that ends the reader loop (BROKER answer).",
      [{"rule": "LIFECYCLE", "floor": 97}, {"rule": "WHO-MAY", "floor": 11}, {"rule": "TABLES-ERRCODE", "floor": 4},
       {"rule": "BROKER", "filter": tag("answer"), "floor": 1},
-      {"rule": "SEND-AWAIT", "floor": 11}])
+      {"rule": "SEND-AWAIT", "floor": 11},
+      {"rule": "CODEC", "floor": 8}])
 
 prop("C19", NEC + "Clauses: decode consumes nothing before its last `Ok(None)`, slices the body only behind the "
      "length guard and advances by exactly content_end; encode writes String::len() (bytes) of the body it writes; one "
